@@ -53,6 +53,13 @@ def make_samples(vseed: int, nsamps: int, nchans: int, nbits: int, mode: str = "
     if mode == "small":
         top = min(15, (1 << nbits) - 1) if nbits < 32 else 15
         return (h % np.uint64(top + 1)).astype(dt)
+    if mode == "gappy":
+        # small integers with stretches of exact zeros in all channels (blank blocks)
+        top = min(15, (1 << nbits) - 1) if nbits < 32 else 15
+        vals = (h % np.uint64(top + 1)).astype(np.int64)
+        period = 5 + vseed % 11
+        blank = ((t // period) % 2 == 1)
+        return np.where(blank, 0, np.maximum(vals, 1 if top >= 1 else 0)).astype(dt)
     if mode == "flat":
         # every sample equals one small constant: block means are exact integers
         return np.full((nsamps, nchans), 1 + (vseed % 15)).astype(dt) if nbits > 2 else np.full((nsamps, nchans), 1).astype(dt)
@@ -172,12 +179,16 @@ def write_fileset(root: str, spec: dict, stem: str = "in", extra_tail: list | No
     t = 0
     joined = []
     for i, n in enumerate(counts):
-        hdr = encode_header(header_fields(spec, i, tstart0 + t * tsamp / 86400.0))
+        ts_i = tstart0 + t * tsamp / 86400.0
+        if spec.get("tstart_shift"):
+            ts_i = tstart0 + float(spec["tstart_shift"][i])  # days; arbitrary, not necessarily increasing
+        hdr = encode_header(header_fields(spec, i, ts_i))
         data = to_disk_bytes(fs.samples[t : t + n], nbits)
         tail = b""
         if extra_tail and extra_tail[i]:
             tail = bytes(extra_tail[i])
-        path = os.path.join(root, f"{stem}{i}.fil")
+        # names whose lexicographic order differs from the caller's (chronological) order: _8, _9, _10
+        path = os.path.join(root, f"{stem}_{8 + i}.fil")
         with open(path, "wb") as fp:
             fp.write(hdr)
             fp.write(data)
